@@ -10,6 +10,8 @@ import (
 	"database/sql/driver"
 	"errors"
 	"io"
+	"regexp"
+	"strconv"
 	"strings"
 	"sync"
 	"time"
@@ -18,9 +20,17 @@ import (
 	"github.com/metrico/qryn/reader/model"
 )
 
+// one row of time_series as the labels request sees it: a series announced on a day
+type labelDay struct {
+	fp     uint64
+	day    int64
+	labels [][2]string
+}
+
 type script struct {
 	mainRows   [][]driver.Value // (uint64 fingerprint, float64 value, int64 timestamp_ms)
 	labelRows  [][]driver.Value // (uint64 fingerprint, [][]interface{} labels)
+	ldb        []labelDay       // when set: the labels request is answered from it, honouring the statement's IN list and date bounds
 	mainSQL    []string
 	labelsSQL  []string
 	otherSQL   []string
@@ -64,6 +74,9 @@ func (*conn) QueryContext(ctx context.Context, q string, args []driver.NamedValu
 		if cur.failLabels {
 			return nil, errors.New("scripted: labels request failed")
 		}
+		if cur.ldb != nil {
+			return &rowsT{cols: 2, rows: answerLabels(q, cur.ldb)}, nil
+		}
 		return &rowsT{cols: 2, rows: cur.labelRows}, nil
 	}
 	if strings.Contains(q, "fp_sel") {
@@ -73,6 +86,43 @@ func (*conn) QueryContext(ctx context.Context, q string, args []driver.NamedValu
 	cur.otherSQL = append(cur.otherSQL, q)
 	return &rowsT{cols: 1}, nil
 }
+var reIn = regexp.MustCompile(`\(fingerprint IN \(([0-9,]*)\)\)`)
+var reDates = regexp.MustCompile(`\(\(date\) >= \('(\d{4}-\d{2}-\d{2})'\)\) and \(\(date\) <= \('(\d{4}-\d{2}-\d{2})'\)\)`)
+
+// the reading of the labels request (coq/model/PromSem.v fetch_rows): rows of the series table for the listed
+// fingerprints, dated between the two bounds of THIS statement
+func answerLabels(q string, ldb []labelDay) [][]driver.Value {
+	want := map[uint64]bool{}
+	if m := reIn.FindStringSubmatch(q); m != nil {
+		for _, x := range strings.Split(m[1], ",") {
+			if v, err := strconv.ParseUint(x, 10, 64); err == nil {
+				want[v] = true
+			}
+		}
+	}
+	d1, d2 := int64(-1<<40), int64(1<<40)
+	if m := reDates.FindStringSubmatch(q); m != nil {
+		if t, err := time.Parse("2006-01-02", m[1]); err == nil {
+			d1 = t.Unix() / 86400
+		}
+		if t, err := time.Parse("2006-01-02", m[2]); err == nil {
+			d2 = t.Unix() / 86400
+		}
+	}
+	var rows [][]driver.Value
+	for _, s := range ldb {
+		if !want[s.fp] || s.day < d1 || s.day > d2 {
+			continue
+		}
+		var l [][]interface{}
+		for _, kv := range s.labels {
+			l = append(l, []interface{}{kv[0], kv[1]})
+		}
+		rows = append(rows, []driver.Value{s.fp, l})
+	}
+	return rows
+}
+
 func (*conn) ExecContext(ctx context.Context, q string, args []driver.NamedValue) (driver.Result, error) {
 	return driver.RowsAffected(0), nil
 }
